@@ -145,6 +145,10 @@ impl Engine for FileE2e {
             steps = vec![Step::Emit(0), Step::Sleep(10), Step::Burst(1, burst), Step::Sleep(1)];
         }
         let rng_seed = ch.choose(1 << 30) as u64;
+        // what an earlier run of the application left behind in set a's directory: a file of the current period holding one
+        // complete record and (two times in three) the torn beginning of another - the process died mid-write. With
+        // reuse on, the new run appends to it and must first end the torn record with the *configured* separator
+        let leftover: Option<bool> = if !overflow && reuse && ch.chance(1, 3) { Some(!ch.chance(1, 3)) } else { None };
 
         let sched = Sched::new(std::mem::replace(ch, Choices::from_record(&[])), ctx.want_trace, 200_000);
         // running code takes time: consecutive clock readings differ (by a nanosecond), so "elapsed" is never zero
@@ -286,6 +290,33 @@ impl Engine for FileE2e {
                 .max_file_size_bytes(max_size)
                 .roll_by_minute(),
         };
+        let leftover_bytes: Option<Vec<u8>> = leftover.map(|torn| {
+            let rec = |m: &str| -> Vec<u8> {
+                match writer_kind {
+                    0 => format!("{{\"ts\":\"2024-05-27T02:59:58.000000000Z\",\"msg\":\"an event of the earlier run\",\"marker\":\"{m}\",\"n\":0}}").into_bytes(),
+                    2 | 4 => format!("marker={m}\n").into_bytes(),
+                    _ => format!("marker={m}").into_bytes(),
+                }
+            };
+            let mut body = rec("MK990001KM");
+            if !body.ends_with(sep_a) {
+                body.extend_from_slice(sep_a);
+            }
+            if torn {
+                let r = rec("MK990002KM");
+                // cut inside the record, before its marker is complete
+                body.extend_from_slice(&r[..r.len().min(12)]);
+            }
+            body
+        });
+        let torn_fragment: Option<Vec<u8>> = match leftover {
+            Some(true) => leftover_bytes.as_ref().map(|b| b[b.len() - 12..].to_vec()),
+            _ => None,
+        };
+        if let Some(body) = &leftover_bytes {
+            fs_a.seed_file("logs/a/app.2024-05-27-03-00.00000000.0a0b0c0d.log", body, false);
+            sched.log(format!("an earlier run left logs/a/app.2024-05-27-03-00.00000000.0a0b0c0d.log behind: {:?}", String::from_utf8_lossy(body)));
+        }
         // the production `FileSetBuilder::spawn`, as it is: its constructors for the filesystem, the clock and the random
         // source hand out what is injected here (the earlier hook `verif_spawn_with` was a copy of `spawn`'s body, so an
         // edit to the real one went unseen)
@@ -572,7 +603,7 @@ impl Engine for FileE2e {
                     // C06 through the file emitter: one client emits in marker order, a file is only ever appended to by
                     // one batch at a time and abandoned after a failed write, so within a file the events keep their order
                     // and none appears twice
-                    let in_file = markers_in(&data);
+                    let in_file: Vec<String> = markers_in(&data).into_iter().filter(|m| !m.starts_with("MK99")).collect();
                     if let Some(w) = in_file.windows(2).find(|w| w[0] >= w[1]) {
                         out.violate(
                             "C06",
@@ -634,7 +665,40 @@ impl Engine for FileE2e {
             }
             // separator logic on the emitting side: exactly one separator after every record
             let faults_fired = out.probes.contains_key("fs_fault_injected") || budget.lock().unwrap().0 != fault_budget;
+            // a reused leftover: what the earlier run wrote is still there, and if it ended in a torn record the first
+            // thing appended is the configured separator, so the torn record and the first new event stay two records
+            if let Some(body) = &leftover_bytes {
+                for (path, data, _, _) in fs_a.current_view() {
+                    if !path.ends_with("app.2024-05-27-03-00.00000000.0a0b0c0d.log") {
+                        continue;
+                    }
+                    if !data.starts_with(body) {
+                        out.violate("C10", "leftover_file_damaged", format!("{path} no longer starts with what the earlier run left in it"));
+                    } else if data.len() > body.len() {
+                        out.probe("leftover_file_reused");
+                        if !body.ends_with(sep_a) {
+                            out.probe("leftover_file_with_torn_tail_reused");
+                            if !data[body.len()..].starts_with(sep_a) && !faults_fired {
+                                out.violate(
+                                    "C10",
+                                    "mangled_record",
+                                    format!(
+                                        "{path} was reused after a torn record, but what was appended does not begin with the separator {:?}: {:?}",
+                                        String::from_utf8_lossy(sep_a),
+                                        String::from_utf8_lossy(&data[body.len()..(body.len() + 24).min(data.len())])
+                                    ),
+                                );
+                            }
+                        }
+                    }
+                }
+            }
             for (path, data, _, _) in fs_a.current_view() {
+                let is_leftover = leftover_bytes.is_some() && path.ends_with("app.2024-05-27-03-00.00000000.0a0b0c0d.log");
+                if is_leftover && leftover_bytes.as_deref() == Some(&data[..]) {
+                    // never reused (another period by the time of the first batch): still as the earlier run left it
+                    continue;
+                }
                 let mut rest: &[u8] = &data;
                 let mut records: Vec<&[u8]> = Vec::new();
                 while !rest.is_empty() {
@@ -653,6 +717,10 @@ impl Engine for FileE2e {
                     }
                 }
                 for r in records {
+                    if torn_fragment.as_deref() == Some(r) {
+                        // the torn record the earlier run left behind, ended by the recovery separator
+                        continue;
+                    }
                     if writer_kind != 0 && !r.is_empty() {
                         // custom writers: byte-identical records
                         let ms = markers_in(r);
@@ -675,7 +743,9 @@ impl Engine for FileE2e {
                     if n > 1 {
                         out.violate("C10", "mangled_record", format!("a record in {path} holds {n} events: {:?}", String::from_utf8_lossy(r)));
                     }
-                    if n == 0 && !faults_fired {
+                    // (a reused file begins its new life with a separator, whether or not the earlier run ended cleanly:
+                    // the worker does not read what is there)
+                    if n == 0 && !faults_fired && !(is_leftover && r.is_empty()) {
                         out.violate(
                             "C10",
                             "spurious_empty_record",
